@@ -3,6 +3,7 @@ import Noodles.Csi.Driver
 import Noodles.Csi.DriverC04
 import Noodles.Bgzf.Driver
 import Noodles.Bgzf.DriverC02
+import Noodles.Bgzf.DriverC03
 namespace Noodles
 open Noodles.Wire
 
@@ -12,6 +13,7 @@ def dispatch (line : String) : String :=
   | "c04" :: rest => Csi.handleC04 rest
   | "c01" :: rest => Bgzf.handleC01 rest
   | "c02" :: rest => Bgzf.RM.handleC02 rest
+  | "c03" :: rest => MtModel.handleC03 rest
   | _ => "bad-suite"
 
 end Noodles
